@@ -864,13 +864,125 @@ pub fn replay(args: &Args) -> i32 {
 }
 
 /// the engine's tree for every model of a family (C20, tree half)
+/// every string of the model text that is not itself an `id` field: ids found here are referenced
+/// (needs, next, ...) and must stay as written
+fn referenced(v: &Value, under_id: bool, out: &mut std::collections::HashSet<String>) {
+    match v {
+        Value::String(s) if !under_id => {
+            out.insert(s.clone());
+        }
+        Value::Array(a) => a.iter().for_each(|x| referenced(x, false, out)),
+        Value::Object(m) => m.iter().for_each(|(k, x)| referenced(x, k == "id", out)),
+        _ => {}
+    }
+}
+
+/// blank the id of every step, branch and act nothing refers to (the workflow, its `on` events and
+/// anything inside parameters keep theirs): only members of `steps`, `branches` and `acts` lists of
+/// the model structure are touched
+fn strip_ids(v: &mut Value, member: bool, keep: &std::collections::HashSet<String>) {
+    match v {
+        Value::Array(a) => a.iter_mut().for_each(|x| strip_ids(x, member, keep)),
+        Value::Object(m) => {
+            if member {
+                if let Some(Value::String(id)) = m.get("id") {
+                    if !keep.contains(id) {
+                        m.insert("id".to_string(), json!(""));
+                    }
+                }
+            }
+            for (k, x) in m.iter_mut() {
+                match k.as_str() {
+                    "steps" | "branches" | "acts" => strip_ids(x, true, keep),
+                    "catches" | "timeout" => strip_ids(x, false, keep),
+                    _ => {}
+                }
+            }
+        }
+        _ => {}
+    }
+}
+
+fn rename(nodes: &Value, map: &std::collections::HashMap<String, String>) -> Value {
+    let f = |v: &Value| match v.as_str().and_then(|s| map.get(s)) {
+        Some(t) => json!(t),
+        None => v.clone(),
+    };
+    let on = |v: &Value| Value::Array(v.as_array().unwrap().iter().map(|x| json!({"on": x["on"], "id": f(&x["id"])})).collect());
+    let list = |v: &Value| Value::Array(v.as_array().unwrap().iter().map(&f).collect());
+    Value::Array(
+        nodes
+            .as_array()
+            .unwrap()
+            .iter()
+            .map(|n| {
+                let mut n = n.clone();
+                for k in ["id", "parent", "prev", "next"] {
+                    n[k] = f(&n[k]);
+                }
+                n["kids"] = list(&n["kids"]);
+                n["needs"] = list(&n["needs"]);
+                n["ckids"] = on(&n["ckids"]);
+                n["tkids"] = on(&n["tkids"]);
+                n
+            })
+            .collect(),
+    )
+}
+
+/// generated ids (C20): the same model with the ids nothing refers to left to the engine, and the
+/// tree rebuilt from the model the first tree keeps (what a reload does). Both tables are renamed
+/// position by position to the written ids; an id the rebuilt tree does not share with the first
+/// one stays as it is and the table differs from Tree.tla's.
+fn anon_trees(model_text: &str, named: &Value) -> Option<(Value, Value)> {
+    let mut v: Value = serde_json::from_str(model_text).ok()?;
+    let mut keep = std::collections::HashSet::new();
+    referenced(&v, false, &mut keep);
+    strip_ids(&mut v, false, &keep);
+    let wf = Workflow::from_json(&v.to_string()).ok()?;
+    let bad = |e: String| json!({"ok": false, "err": e, "nodes": [], "roundtrip": true, "keeps": true});
+    let d = match verif::dump_tree(&wf) {
+        Ok(d) => d,
+        Err(e) => return Some((bad(e.clone()), bad(e))),
+    };
+    let a = tree::table(&d);
+    let mut map = std::collections::HashMap::new();
+    let (an, nn) = (a.as_array().unwrap(), named.as_array().unwrap());
+    if an.len() == nn.len() {
+        for (x, y) in an.iter().zip(nn.iter()) {
+            map.insert(x["id"].as_str().unwrap_or("").to_string(), y["id"].as_str().unwrap_or("").to_string());
+        }
+    }
+    let first = json!({"ok": true, "nodes": rename(&a, &map), "warn": d["error"], "roundtrip": round_trip(&wf), "keeps": true});
+    let again = match Workflow::from_json(&d["model"].to_string()) {
+        Ok(kept) => match verif::dump_tree(&kept) {
+            Ok(d2) => json!({"ok": true, "nodes": rename(&tree::table(&d2), &map), "warn": d2["error"],
+                "roundtrip": round_trip(&kept), "keeps": true}),
+            Err(e) => bad(e),
+        },
+        Err(e) => bad(e.to_string()),
+    };
+    Some((first, again))
+}
+
 pub fn trees(args: &Args) -> i32 {
     let models = read_ndjson(&args.str("models", ""));
     let mut out = Out::new(&args.str("out", "trees.ndjson"));
     for (mi, line) in models.iter().enumerate() {
-        let tree = engine_tree(line["model"].as_str().unwrap());
-        out.write(&[json!({"ev": "model", "name": line["name"], "model": line["spec"], "tree": tree,
-            "inputs": line["inputs"][0], "x": {"mi": mi + 1}})]);
+        let text = line["model"].as_str().unwrap();
+        let tree = engine_tree(text);
+        let rec = |name: String, tree: &Value| {
+            json!({"ev": "model", "name": name, "model": line["spec"], "tree": tree,
+            "inputs": line["inputs"][0], "x": {"mi": mi + 1}})
+        };
+        let name = line["name"].as_str().unwrap_or("").to_string();
+        out.write(&[rec(name.clone(), &tree)]);
+        if tree["ok"] == json!(true) {
+            if let Some((first, again)) = anon_trees(text, &tree["nodes"]) {
+                out.write(&[rec(format!("{name}~generated-ids"), &first)]);
+                out.write(&[rec(format!("{name}~rebuilt-from-kept-model"), &again)]);
+            }
+        }
     }
     out.flush();
     0
